@@ -304,6 +304,11 @@ def refusals(ctx) -> None:
                 ctx.ok('C01.refusals', fn, f'confirmed refusal: {kind} {cond}', node)
             else:
                 ctx.fail('C01.refusals', fn, f'a refusal not among the confirmed ones of the compile path: {kind} `{cond}` - a valid segment hitting it can no longer be compiled (confirmed for this function: {REFUSALS.get(fn.ref, [])})', node, key=f'refusal:{kind}:{cond}')
+        for kind, cond in want:
+            ctx.fail('C01.refusals', fn, f'a confirmed refusal of the compile path vanished: {kind} `{cond}` (an invalid table - unlinked argument, index collision, cycle - would now be emitted instead of refused)', fn.node, key=f'refusal-gone:{kind}:{cond}')
+    for ref in REFUSALS:
+        if not prog.has_func(ref):
+            raise core.AnalysisError(f'anchor vanished: {ref}')
     ctx.floor('C01.refusals', n, 8)
 
 
